@@ -29,13 +29,15 @@ def sh(cmd, cwd=None, env=None, timeout=None, check=False):
 
 
 class Lock:
-    def __init__(self, name):
+    """coq.lock: builds take it exclusively, evaluations of compiled .vo files take it shared."""
+    def __init__(self, name, shared=False):
         os.makedirs(WORK, exist_ok=True)
         self.path = os.path.join(WORK, name)
+        self.shared = shared
 
     def __enter__(self):
-        self.f = open(self.path, 'w')
-        fcntl.flock(self.f, fcntl.LOCK_EX)
+        self.f = open(self.path, 'a')
+        fcntl.flock(self.f, fcntl.LOCK_SH if self.shared else fcntl.LOCK_EX)
         return self
 
     def __exit__(self, *a):
@@ -134,7 +136,8 @@ def print_assumptions(module, names, run_dir):
         src += 'Print Assumptions %s.\n' % n
     path = os.path.join(run_dir, 'pa.v')
     open(path, 'w').write(src)
-    rc, out = sh(['timeout', '300', 'coqc', '-Q', COQ, 'F2G', path], cwd=run_dir)
+    with Lock('coq.lock', shared=True):
+        rc, out = sh(['timeout', '300', 'coqc', '-Q', COQ, 'F2G', path], cwd=run_dir)
     res = {}
     if rc != 0:
         return None, out
@@ -315,7 +318,7 @@ def coq_eval(drv_module, recs, run_dir, tag, shard=400, extra_defs='', jobs=12, 
         rc, out = sh(['timeout', str(timeout), 'coqc', '-noglob', '-Q', COQ, 'F2G', '-w', '-all', path], cwd=run_dir)
         return si, rc, out
 
-    with ThreadPoolExecutor(max_workers=jobs) as ex:
+    with Lock('coq.lock', shared=True), ThreadPoolExecutor(max_workers=jobs) as ex:
         for si, rc, out in ex.map(work, range(len(shards))):
             results[si] = (rc, out)
     M, F, K, logs = [], [], {}, []
